@@ -27,7 +27,7 @@ CHECKS = {
          "4/C16", "Bound: the enumerated definitions (seeded by VERIF_SEED); kio's naming/optional conventions are part of the expected model; the error-code table is copied, not generated. " + TB),
  "C17": ("proof", "Every function of kio.records.writers verified against the magic-2 batch layout for symbolic records (any number of records and headers, arbitrary sizes): derived header fields, lengths, CRC coverage (CRC uninterpreted), zig-zag varints, deltas; the independent-decoder clause is a bounded native run.",
          "4/C17", TB + " crc32c and max() under assumed contracts; preconditions: non-empty records, deltas within int32/int64, sizes within int32."),
- "C18": ("proof", "read_batch verified on every well-formed magic-2 batch (symbolic fields, any number of records, inductive loop rule): header fields as encoded, exact consumption, write-after-read reproduces the bytes (lemma over the reader and writer contracts), wrong magic / checksum mismatch raise ValueError. read_record's real body (float division, datetime.fromtimestamp under the rounding model) is verified on every encoded record - attributes, offset, key, value, headers, exact consumption and the whole-second part of the timestamp discharged; its full timestamp clause is refuted with a replayed counterexample, which is the known finding (record timestamps lose milliseconds); bit flips and truncations rely on the CRC axiom and are validated natively.",
+ "C18": ("proof", "read_batch verified on every well-formed magic-2 batch (symbolic fields, any number of records, inductive loop rule): header fields as encoded, exact consumption, write-after-read reproduces the bytes (lemma over the reader and writer contracts), wrong magic / checksum mismatch raise ValueError. read_record's real body (float division, datetime.fromtimestamp under the rounding model) is verified on every encoded record - attributes, offset, key, value, headers, exact consumption and the whole-second part of the timestamp discharged; its full timestamp clause is refuted with a replayed counterexample, which is the known finding (record timestamps lose milliseconds); every strict prefix of every well-formed batch raises (BufferUnderflow before the checksummed part without any axiom, ValueError inside it under the explicitly assumed CRC-prefix axiom) and an arbitrary payload with a non-matching CRC raises before anything is parsed - both discharged symbolically; single-bit flips rely on the CRC axiom and are validated natively.",
          "4/C18", TB + " CRC axiom (damaged data changes the CRC) is not a theorem; read_record's timestamp clause fails (known finding D6), so the batch-level timestamp facts are conditional on it; datetime.fromtimestamp(float, UTC) is modelled (round-half-even to a whole microsecond within 1/2 + 2^-33 us), an assumption about CPython validated by the bounded run."),
  "C19": ("proof", "Frame (purity) obligations for every function under contract: no global/nonlocal, no store or mutating call on captured/global objects, temporaries fresh and closed on every path; an injected stream fault at every write/read propagates unchanged; independently built plans are equivalent closures (cache). The thread clause follows by non-interference under stated assumptions - no schedule is explored.",
          "4/C19", TB + " functools.cache and CPython's atomicity of reads of immutable plans are assumed; one bounded native thread run is a stand-in, not proof."),
